@@ -18,6 +18,7 @@ from . import rewire
 bct = env.bct
 PROP = 'C19'
 MARGIN = 1e-9
+UNDECIDABLE = [0]  # bumped by tstats() when an unpaired connection is constant within both groups at different values
 
 
 def tstats(xm, ym, tail, paired):
@@ -36,6 +37,12 @@ def tstats(xm, ym, tail, paired):
             # (0/0); in floating point mean and variance of such a row are rounding noise, so decide it exactly
             allsame = (np.ptp(np.hstack((xm, ym)), axis=1) == 0)
             t = np.where(allsame, np.nan, t)
+            # both groups constant but at different values: the pooled variance is exactly 0 and the statistic is +-inf by the
+            # formula, while bct's convention is 'denom == 0 -> 0'. The property does not settle this corner; such runs are
+            # discarded and counted (marker value: a statistic exactly AT the threshold cannot occur otherwise)
+            sep = (np.ptp(xm, axis=1) == 0) & (np.ptp(ym, axis=1) == 0) & ~allsame
+            if sep.any():
+                UNDECIDABLE[0] += 1
     if tail == 'both':
         t = np.abs(t)
     elif tail == 'left':
@@ -56,8 +63,14 @@ def comp_sizes(n, ii, jj, supra):
 
 
 def near(t, thresh):
+    """a statistic within the float margin of the threshold cannot be judged - except the exact tie 0 == 0: equal group means
+    give exactly 0.0 in any implementation, and 'exceeds' is strict"""
     f = np.isfinite(t)
-    return bool(np.any(np.abs(t[f] - thresh) < MARGIN))
+    d = np.abs(t[f] - thresh)
+    close = d < MARGIN
+    if thresh == 0:
+        close &= (t[f] != 0.0)
+    return bool(np.any(close))
 
 
 def oracle(x, y, thresh, k, tail, paired, out, trace, unordered=None):
@@ -68,7 +81,10 @@ def oracle(x, y, thresh, k, tail, paired, out, trace, unordered=None):
     ii, jj = np.nonzero(np.triu(np.ones((n, n)), 1))
     xm = x[ii, jj, :].astype(np.float64)
     ym = y[ii, jj, :].astype(np.float64)
+    UNDECIDABLE[0] = 0
     t = tstats(xm, ym, tail, paired)
+    if UNDECIDABLE[0]:
+        return [], 'zero_variance_separation'
     if near(t, thresh):
         return [], 'near_threshold'
     supra = np.zeros(len(t), dtype=bool)
@@ -134,6 +150,8 @@ def oracle(x, y, thresh, k, tail, paired, out, trace, unordered=None):
                 usable = False
                 break
             tp = tstats(d[:, :nx], d[:, nx:], tail, paired)
+            if UNDECIDABLE[0]:
+                return v, 'zero_variance_separation'
             if near(tp, thresh):
                 return v, 'near_threshold'
             sp = np.zeros(len(tp), dtype=bool)
@@ -161,6 +179,8 @@ def oracle(x, y, thresh, k, tail, paired, out, trace, unordered=None):
                     return v, None  # not a relabelling in the form this oracle understands: null[u] is not judged
                 d = both[:, np.asarray(e[3], dtype=int)]
                 tp = tstats(d[:, :nx], d[:, nx:], tail, False)
+            if UNDECIDABLE[0]:
+                return v, 'zero_variance_separation'
             if near(tp, thresh):
                 return v, 'near_threshold'
             sp = np.zeros(len(tp), dtype=bool)
@@ -262,8 +282,9 @@ def execute(case, mode, fn=None, label='nbs_bct'):
     elif outcome == 'rejected':
         pr['rejected:' + str(exc)[:30]] = 1
         # 'Unsuitable threshold' must mean: no connection exceeds the threshold
+        UNDECIDABLE[0] = 0
         t = observed(x, y, p['thresh'], p['tail'], p['paired'])
-        if not near(t, p['thresh']):
+        if not near(t, p['thresh']) and not UNDECIDABLE[0]:
             any_supra = bool(np.any(t[np.isfinite(t)] > p['thresh']) or np.any(t == np.inf))
             if any_supra and 'Unsuitable threshold' in str(exc):
                 facts = [('adj', 'call rejected with "Unsuitable threshold" although %d connection(s) exceed the threshold' % int(np.sum(t[np.isfinite(t)] > p['thresh'])))]
@@ -304,6 +325,18 @@ def gen_stacks(rnd, nmax=8):
             y[a, b, s] = y[b, a, s] = round(rnd.gauss(0, 1), 3)
     dt = 'float64'
     r = rnd.random()
+    if r >= 0.9:
+        # sparse small-integer counts: many exactly equal group means (statistic exactly 0) and absent connections
+        dt = 'smallint'
+        x = np.zeros((n, n, nx))
+        y = np.zeros((n, n, ny))
+        for (a, b) in pairs:
+            if rnd.random() < 0.3:
+                continue  # absent in every subject
+            for s in range(nx):
+                x[a, b, s] = x[b, a, s] = float(rnd.choice((0, 0, 1, 2, 3)) + (2 if (a, b) in effect else 0))
+            for s in range(ny):
+                y[a, b, s] = y[b, a, s] = float(rnd.choice((0, 0, 1, 2, 3)))
     if r < 0.25:
         # count-like data in a narrow integer type (streamline counts): same statistics, other container
         dt = rnd.choice(('int8', 'int16', 'uint8', 'uint16', 'int32', 'int64', 'float32'))
@@ -324,7 +357,7 @@ class _Scn(object):
     def generate(self, sub):
         rnd = random.Random(sub)
         x, y, paired, meta = gen_stacks(rnd, self.nmax)
-        p = {'thresh': rnd.choice((1.0, 1.5, 2.0, 2.5, 3.0)) + rnd.choice((0.0, 0.013, 0.0271)), 'k': rnd.randint(5, 40),
+        p = {'thresh': rnd.choice((1.0, 1.5, 2.0, 2.5, 3.0)) + rnd.choice((0.0, 0.013, 0.0271)) if rnd.random() < 0.9 else 0, 'k': rnd.randint(5, 40),
              'tail': rnd.choice(('both', 'left', 'right')), 'paired': paired}
         pol = rewire.pick_policy(rnd)
         if pol['name'] != 'fair':
